@@ -839,7 +839,6 @@ Variable now : Z.
 Variable root_elem : celem.
 Variable b64_of_pem : bytes -> str.
 Variable b64_norm : str -> option str.
-Variable key_norm : str -> option str.
 
 Notation Q := (quote_ok hash p256_verify p256_key x509_parse root_elem).
 Notation A := (attkey_ok hash p256_verify p256_key x509_parse root_elem).
@@ -987,7 +986,7 @@ Record sgx_wf (e : envelope) : Prop := {
   w_quote : wf_bytes (en_quote e); w_quote_ne : en_quote e <> [];
   w_sig : wf_bytes (en_sig e); w_sig_len : (length (en_sig e) <= 64)%nat;
   w_custom : wf_bytes (en_custom e); w_custom_ne : en_custom e <> [];
-  w_qeb : wf_bytes (en_qe_body e); w_qeb_len : length (en_qe_body e) = 384%nat;
+  w_qeb : wf_bytes (en_qe_body e); w_qeb_ne : en_qe_body e <> [];
   w_qes : wf_bytes (en_qe_sig e); w_qes_len : (length (en_qe_sig e) <= 64)%nat;
   w_key : wf_bytes (en_attkey e);
   w_auth : wf_bytes (en_auth e)
@@ -997,11 +996,10 @@ Lemma sgx_elems_v2 e c0 c1 :
   sgx_wf e ->
   b64_norm (b64_of_pem c0) = Some (b64_of_pem c0) ->
   b64_norm (b64_of_pem c1) = Some (b64_of_pem c1) ->
-  key_norm (hex (4 :: en_attkey e)) = Some (hex (4 :: en_attkey e)) ->
-  Forall (fun x => v2_elem b64_norm x /\ v2_stable b64_norm key_norm x)
+  Forall (fun x => v2_elem b64_norm x /\ v2_stable b64_norm x)
          [el_quote e; el_att e; el_qe c0; el_pca c1].
-Proof.
-  intros [W1 N1 W2 L2 W3 N3 W4 L4 W5 L5 W6 W7] B0 B1 Kn.
+Proof using b64_of_pem b64_norm.
+  intros [W1 N1 W2 L2 W3 N3 W4 N4 W5 L5 W6 W7] B0 B1.
   destruct (wf_sigencode_der _ W2 L2) as [S1 S1n].
   destruct (wf_sigencode_der _ W5 L5) as [S2 S2n].
   repeat (first [apply Forall_cons | apply Forall_nil | split]);
@@ -1010,13 +1008,11 @@ Proof.
   - apply canonical_hex; assumption.
   - apply canonical_hex; assumption.
   - apply canonical_hex; assumption.
-  - apply canonical_hex; [assumption|]. intro H. rewrite H in L4. discriminate.
   - apply canonical_hex; assumption.
-  - apply canonical_hex; [|discriminate]. constructor; [lia|assumption].
+  - apply canonical_hex; assumption.
+  - apply canonical_hex; [|discriminate]. constructor; [reflexivity|assumption].
   - destruct (en_auth e) as [|x r] eqn:Ea; [right; reflexivity|].
     left. apply canonical_hex; [assumption|discriminate].
-  - exists (en_qe_body e). split; [apply c_fromhex_hex; assumption|assumption].
-  - exact Kn.
   - exists (b64_of_pem c0). exact B0.
   - exact B0.
   - exists (b64_of_pem c1). exact B1.
@@ -1051,30 +1047,29 @@ Theorem sgx_file_roundtrip e els :
   sgx_elements b64_of_pem e = Some els ->
   sgx_wf e ->
   (forall c, b64_norm (b64_of_pem c) = Some (b64_of_pem c)) ->
-  key_norm (hex (4 :: en_attkey e)) = Some (hex (4 :: en_attkey e)) ->
-  exists j, cert_to_json key_norm (sgx_cert els) = Some j /\
+  exists j, cert_to_json (sgx_cert els) = Some j /\
             load_cert b64_norm j = LOk (sgx_cert els).
-Proof.
-  intros He Hw Hb Hk. apply sgx_elements_iff in He. destruct He as (c0 & c1 & rest & _ & ->).
-  pose proof (sgx_elems_v2 e c0 c1 Hw (Hb c0) (Hb c1) Hk) as Hel.
+Proof using b64_of_pem b64_norm.
+  intros He Hw Hb. apply sgx_elements_iff in He. destruct He as (c0 & c1 & rest & _ & ->).
+  pose proof (sgx_elems_v2 e c0 c1 Hw (Hb c0) (Hb c1)) as Hel.
   destruct (sgx_table_facts e c0 c1) as (Hren & Huniq & Hct & Hkeyed).
   unfold sgx_cert, cert_of. cbn [map].
   set (t := table_of _) in *.
   assert (Hin : forall k x, In (k, x) t -> In x [el_quote e; el_att e; el_qe c0; el_pca c1]).
   { unfold t. rewrite sgx_table. intros k x H. cbn [In] in H |- *.
-    repeat (destruct H as [H|H]; [inversion H; subst; tauto|]). destruct H. }
+    repeat (destruct H as [H|H]; [inversion H; subst; auto 6|]). destruct H. }
   rewrite Forall_forall in Hel.
   assert (Hv : tbl_v2 b64_norm t).
   { apply Forall_forall. intros [k x] Hkx. rewrite Forall_forall in Hkeyed.
     destruct (Hkeyed _ Hkx) as [H1 H2]. split; [exact H1|]. split; [exact H2|].
     apply (Hel x). eapply Hin. exact Hkx. }
-  assert (Hs : forall k x, In (k, x) t -> v2_stable b64_norm key_norm x).
+  assert (Hs : forall k x, In (k, x) t -> v2_stable b64_norm x).
   { intros k x Hkx. apply (Hel x). eapply Hin. exact Hkx. }
   unfold cert_to_json. cbn [c_elems c_version c_targets].
-  destruct (all_some (map (fun kv => elem_to_json key_norm (snd kv)) t)) as [js|] eqn:Ejs.
+  destruct (all_some (map (fun kv => elem_to_json (snd kv)) t)) as [js|] eqn:Ejs.
   - eexists. split; [reflexivity|].
     assert (Hu' : keys_unique ([] ++ renamed t)) by (cbn [app]; rewrite Hren; exact Huniq).
-    pose proof (rebuild_v2 b64_norm key_norm t [] js Hu' Hv Hs Ejs) as Hr.
+    pose proof (rebuild_v2 b64_norm t [] js Hu' Hv Hs Ejs) as Hr.
     cbn [app] in Hr. rewrite Hren in Hr.
     unfold load_cert.
     change (jget (s "version") _) with (Some (JInt 2)).
@@ -1083,20 +1078,19 @@ Proof.
   - exfalso. apply all_some_none_iff in Ejs. apply in_map_iff in Ejs.
     destruct Ejs as ([k x] & Hx & Hkx). cbn [snd] in Hx.
     destruct (Hel x (Hin _ _ Hkx)) as [H1 H2].
-    destruct (elem_v2_roundtrip b64_norm key_norm x H1 H2) as (j & Hj & _). congruence.
+    destruct (elem_v2_roundtrip b64_norm x H1 H2) as (j & Hj & _). congruence.
 Qed.
 
 Corollary sgx_file_validates_identically e els j c' :
   sgx_elements b64_of_pem e = Some els ->
   sgx_wf e ->
   (forall c, b64_norm (b64_of_pem c) = Some (b64_of_pem c)) ->
-  key_norm (hex (4 :: en_attkey e)) = Some (hex (4 :: en_attkey e)) ->
-  cert_to_json key_norm (sgx_cert els) = Some j -> load_cert b64_norm j = LOk c' ->
+  cert_to_json (sgx_cert els) = Some j -> load_cert b64_norm j = LOk c' ->
   c' = sgx_cert els /\
   forall link tg, validate_target link c' tg = validate_target link (sgx_cert els) tg.
 Proof.
-  intros He Hw Hb Hk Hj Hl.
-  destruct (sgx_file_roundtrip e els He Hw Hb Hk) as (j' & Hj' & Hl').
+  intros He Hw Hb Hj Hl.
+  destruct (sgx_file_roundtrip e els He Hw Hb) as (j' & Hj' & Hl').
   rewrite Hj in Hj'. inversion Hj'; subst j'. rewrite Hl in Hl'. inversion Hl'; subst c'.
   split; reflexivity.
 Qed.
@@ -1108,13 +1102,12 @@ Corollary sgx_empty_auth_loadable e els :
   sgx_elements b64_of_pem e = Some els -> en_auth e = [] ->
   sgx_wf e ->
   (forall c, b64_norm (b64_of_pem c) = Some (b64_of_pem c)) ->
-  key_norm (hex (4 :: en_attkey e)) = Some (hex (4 :: en_attkey e)) ->
-  exists j, cert_to_json key_norm (sgx_cert els) = Some j /\
+  exists j, cert_to_json (sgx_cert els) = Some j /\
             load_cert b64_norm j = LOk (sgx_cert els) /\
             exists att, nth_error els 1 = Some att /\ ce_extra2 att = [].
 Proof.
-  intros He Ha Hw Hb Hk.
-  destruct (sgx_file_roundtrip e els He Hw Hb Hk) as (j & Hj & Hl).
+  intros He Ha Hw Hb.
+  destruct (sgx_file_roundtrip e els He Hw Hb) as (j & Hj & Hl).
   exists j. split; [exact Hj|]. split; [exact Hl|].
   apply sgx_elements_iff in He. destruct He as (c0 & c1 & rest & _ & ->).
   exists (el_att e). split; [reflexivity|]. cbn [el_att ce_extra2]. rewrite Ha. reflexivity.
@@ -1367,11 +1360,10 @@ Qed.
 Lemma nonempty_hex b : wf_bytes b -> b <> [] -> is_nonempty_hex_string (hex b) = true.
 Proof.
   intros W Hn. unfold is_nonempty_hex_string. rewrite (c_fromhex_hex b W).
-  destruct b; [congruence|]. unfold nlen. cbn [length]. lia.
+  destruct b; [congruence|]. reflexivity.
 Qed.
 
 Variable b64_norm : str -> option str.
-Variable key_norm : str -> option str.
 
 Definition good (b : bytes) : Prop := wf_bytes b /\ b <> [].
 
@@ -1381,7 +1373,7 @@ Theorem ledger_file_roundtrip :
   good (ki_message att) -> good (ki_signature att) ->
   good (ki_message dev) -> good (ki_signature dev) ->
   good ui_msg -> good ui_sig -> good ui_hash -> good sg_msg -> good sg_sig -> good sg_hash ->
-  exists j, cert_to_json key_norm (ledger_cert els) = Some j /\
+  exists j, cert_to_json (ledger_cert els) = Some j /\
             load_cert b64_norm j = LOk (ledger_cert els).
 Proof.
   intros [A1 A1'] [A2 A2'] [D1 D1'] [D2 D2'] [U1 U1'] [U2 U2'] [U3 U3'] [G1 G1'] [G2 G2'] [G3 G3'].
@@ -1409,10 +1401,10 @@ Proof.
   { unfold t. cbn [app keys_unique].
     repeat split; try exact I; intros k' e' Hin; cbn [In] in Hin;
       repeat (destruct Hin as [Hin|Hin]; [inversion Hin; subst; reflexivity|]); destruct Hin. }
-  destruct (all_some_v1 key_norm t Hv) as [js Hjs].
+  destruct (all_some_v1 t Hv) as [js Hjs].
   unfold cert_to_json. cbn [c_elems c_version c_targets]. rewrite Hjs.
   eexists. split; [reflexivity|].
-  pose proof (rebuild_v1 key_norm t [] js Hu Hv Hjs) as Hr. cbn [app] in Hr.
+  pose proof (rebuild_v1 t [] js Hu Hv Hjs) as Hr. cbn [app] in Hr.
   unfold load_cert.
   change (jget (s "version") _) with (Some (JInt 1)). cbn [hashable negb py_eq_int Z.eqb Pos.eqb].
   apply parse_cert_intro with js; try assumption; reflexivity.
@@ -1763,7 +1755,7 @@ Definition device (msg env : bytes) : list resp :=
 Definition run (msg env : bytes) : option sgx_report :=
   match fst (gather_sgx (fun c => c) [1; 2; 3] (world0 (device msg env) [])) with
   | Ok (Some c) =>
-      match cert_to_json (fun k => Some k) c with
+      match cert_to_json c with
       | Some j => match load_cert (fun x => Some x) j with
                   | LOk c' => verify_sgx toy_hash true [op_key]
                                 (quote_value (validate_target toy_link c' (JStr (s "quote"))))
